@@ -399,7 +399,10 @@ def proof_step(res, props_module, extra_targets=()):
             res.failed_obligations.append(("forbidden-word gate", "\n".join(hits)))
         names = theorems_in(props_module + ".v")
         res.obligations += len(names)
-        ok, log = coq_make(["theories/%s.vo" % props_module] + list(extra_targets))
+        # every correspondence library is rebuilt with the property's theorems: a cases file must never load a .vo that
+        # predates the regenerated tables ("inconsistent assumptions" would be a false alarm of the machinery)
+        allcases = sorted("theories/%s.vo" % f[:-2] for f in os.listdir(os.path.join(COQ, "theories")) if f.endswith("Cases.v"))
+        ok, log = coq_make(sorted(set(["theories/%s.vo" % props_module] + list(extra_targets) + allcases)))
     if not ok:
         # which theorem? take the first error location
         m = re.search(r'File "\./([^"]+)", line (\d+)', log)
